@@ -12,10 +12,22 @@ Driver for stream `crash` (C02). One op per line, one observation per line.
                                       SeekGC may overtake the last cached batch)
   rdone                            -> ok | missing <n>
 -/
+import Std.Data.HashMap
 import NeoModel.Base.Proto
 import NeoModel.Model.Persist
 import NeoModel.Generated.Stages
 open NeoModel NeoModel.Persist
+
+deriving instance Hashable for NeoModel.Persist.Key
+
+/-! The model's `Db` is a function; applying change sets builds closure chains. For speed the driver keeps the
+same content in a hash map and hands the model a hash-map backed function (extensionally the same database). -/
+abbrev HM := Std.HashMap Key Val
+
+def dbOf (hm : HM) : Db := fun k => hm.get? k
+
+def compactW (hm : HM) (w : Writes) : HM :=
+  w.foldl (fun m p => match p.2 with | some x => m.insert p.1 x | none => m.erase p.1) hm
 
 structure BlkInfo where
   ntx : Nat
@@ -33,6 +45,7 @@ structure St where
   flushedSomething : Bool := false
   expected : List (Bool × Batch) := []   -- (is the direct SeekGC, batch)
   rdb : Db := Db.empty
+  hm : HM := {}              -- the backend's content
   top : Nat := 0             -- highest header/block height seen in the case
 
 def B : Nat := Generated.Stages.headerBatchCount
@@ -41,7 +54,7 @@ def Sblocks : Nat := Generated.Stages.resetBlocksBatch
 def mkHist (tbl : List (Nat × BlkInfo)) : Hist :=
   { ntx := fun h => match tbl.lookup h with | some i => i.ntx | none => 0
     confl := fun h => match tbl.lookup h with | some i => i.pairs | none => []
-    eff := fun h => [(h, some h)]
+    eff := fun h => [(h % 8, some h)]
     touched := fun _ => [0]
     hashOf := fun it => it.length }
 
@@ -100,7 +113,7 @@ def keyUniverse (H : Hist) (top : Nat) : List Key :=
   ++ (List.range 4).map Key.stub
   ++ (List.range 4).flatMap (fun c => (List.range 4).map (Key.stubSig c))
   ++ hs.map Key.root ++ hs.map Key.trie
-  ++ hs.map (Key.stor false) ++ hs.map (Key.stor true)
+  ++ (List.range 8).map (Key.stor false) ++ (List.range 8).map (Key.stor true)
   ++ [Key.xlog 0, Key.xinfo 0]
   ++ (List.range (top / B + 2)).map (fun m => Key.page (m * B))
 
@@ -183,7 +196,8 @@ def step (s : St) (ws : List String) : St × String :=
       let r := Persist.step H B n .flush
       match r.2 with
       | some _ =>
-        ({ s with node := some r.1, prevPersisted := s.persisted, persisted := n.height, acceptedAtFlush := n.height, flushedSomething := true },
+        let hm' := compactW s.hm n.cache
+        ({ s with node := some { r.1 with db := dbOf hm' }, hm := hm', prevPersisted := s.persisted, persisted := n.height, acceptedAtFlush := n.height, flushedSomething := true },
          absWrites n.cache)
       | none => ({ s with flushedSomething := false }, "none")
     | none => (s, "bad-op")
@@ -214,7 +228,9 @@ def step (s : St) (ws : List String) : St × String :=
           let cand := (e.take n).flatMap (·.2)
           let gcInside := (e.take n).any (·.1) ∧ n > 1
           let after := applyBatch cand s.rdb
-          if ¬ gcInside ∧ semDiff keys s.rdb after = real then some { s with expected := e.drop n, rdb := after }
+          if ¬ gcInside ∧ semDiff keys s.rdb after = real then
+            let hm' := keys.foldl (fun m k => match after k with | some v => m.insert k v | none => m.erase k) s.hm
+            some { s with expected := e.drop n, rdb := dbOf hm', hm := hm' }
           else go (n + 1) fuel
       go 1 (e.length + 1)
     let swapped : List (Bool × Batch) := match s.expected with
